@@ -101,11 +101,24 @@ func judgeC08Batch(sc *BatchSc, x *batchExec, br batchRun, fail string) Verdict 
 	} else {
 		cls = append(cls, "timed")
 	}
+	if sc.stop() {
+		cls = append(cls, "stop-mode")
+	}
 	return ok(n > sc.C && sc.C >= 2, cls...)
 }
 
 func checkC08Batch(t *testing.T, sc BatchSc) Verdict {
-	sc.Mode, sc.Budget, sc.WaitMs, sc.PrepErr, sc.HasFb = modeContinue(sc.Mode), 1, 0, 0, false
+	sc.Budget, sc.WaitMs, sc.PrepErr, sc.HasFb = 1, 0, 0, false
+	if sc.stop() {
+		// in stop mode the in-flight equation only holds as long as nothing fails: make every item succeed
+		items := append([]ItemScript(nil), sc.Items...)
+		for i := range items {
+			it := items[i]
+			it.Exec = []Outcome{{Pay: i % numPayKinds}}
+			items[i] = it
+		}
+		sc.Items = items
+	}
 	var qp func(*batchExec) string
 	if sc.Gated && sc.Barrier == 0 {
 		qp = c08QP
@@ -116,7 +129,7 @@ func checkC08Batch(t *testing.T, sc BatchSc) Verdict {
 
 func genC08Batch(rt *rapid.T) BatchSc {
 	c := rapid.IntRange(0, 16).Draw(rt, "c")
-	g := batchGen{MinN: 1, MaxN: 4*c + 8, MaxC: 0, MaxBudget: 1, PFail: 200, Gated: 2, MaxSched: 80, PrepForms: []int{PFResults, PFAnySlice, PFIntSlice}}
+	g := batchGen{MinN: 1, MaxN: 4*c + 8, MaxC: 0, MaxBudget: 1, PFail: 200, Gated: 2, MaxSched: 80, PrepForms: []int{PFResults, PFAnySlice, PFIntSlice}, Modes: []int{0, 1, 2}}
 	b := g.gen(rt)
 	b.C = c
 	if !b.Gated && c >= 1 && rapid.Bool().Draw(rt, "barrier") {
@@ -141,6 +154,7 @@ func TestC08(t *testing.T) {
 				k++
 				b := c06Base(4*c+8, c, PFResults)
 				b.Sched = sched
+				b.Mode = []int{0, 2, 1}[(c+k)%3]
 				if barrier {
 					if c == 0 {
 						continue
